@@ -13,7 +13,7 @@ class C07(Spec):
                   "collector encodings) and of the merged iterator; tied to common/db by a line-by-line differential run "
                   "(every page, every count, every merged-iterator call) on single databases and 1..3-layer merged views; "
                   "the paging predicate is evaluated on the implementation for every page size, both directions, all encodings.")
-    level_note = ("keys are non-empty (a page ending in the empty key cannot be continued: List treats an empty key as \"from the start\"); "
+    level_note = ("keys under the listed prefix are non-empty (a page ending in the empty key cannot be continued: List treats an empty key as \"from the start\"); "
                   "values written by the generator embed the key so that value-only listings can be continued.")
     assumptions = (
         "the single-database iterator behaves as the C06 model (checked by C06's differential run)",
